@@ -112,8 +112,6 @@ def run_case(seed, i, tier):
     plan = core.random_plan(prng, len(files), budget=3_000_000)
     plan.hashseed = rng.getrandbits(32)
     res = core.execute(scn, plan)
-    if res.timed_out:
-        res = core.execute(scn, plan, wall_cap=120.0)
     tr = res.trace
     cr = CaseResult()
     cr.runs = 1
